@@ -114,6 +114,15 @@ def gen_calls(tier, seed):
         calls.append(call('make_sequence', gen.digits(r, 30 * k), symbol_count=k, mode='byte'))
         calls.append(call('make_sequence', gen.kanji(r, 8 * k), symbol_count=k, mode='kanji', error='M'))
         calls.append(call('make_sequence', gen.digits(r, 50), version=1, mode='alphanumeric'))
+    # explicit encodings whose bytes happen to be valid kanji pairs (the stated encoding still decides the message bytes and the parity)
+    hira = '\u3041\u3042\u3043\u3044\u3045\u3046\u3047\u3048\u3049\u304a\u304b\u304c'
+    for k in (2, 3):
+        calls.append(call('make_sequence', hira, symbol_count=k, encoding='utf-8'))
+        calls.append(call('make_sequence', hira * 3, version=1, encoding='utf-8'))
+        calls.append(call('make_sequence', '\u2460\u2461\u2462\u3231' * 3, symbol_count=k, encoding='cp932'))
+        calls.append(call('make_sequence', '\xa7\xb0\xb1\xd7' * 4, symbol_count=k, encoding='shift_jis'))
+        calls.append(call('make_sequence', gen.kanji(r, 12), symbol_count=k, encoding='shift_jis'))
+        calls.append(call('make_sequence', gen.kanji(r, 12).encode('shift_jis'), symbol_count=k, encoding='shift_jis'))
     # explicit encodings and integers
     for enc in ('utf-8', 'iso-8859-15', 'shift_jis'):
         for k in (2, 3):
